@@ -137,8 +137,9 @@ impl Indexable for ast::BangOperator {
                 let list = values.get(1)?;
                 let predicate = values.get(2)?;
 
-                let list_typ = list.index(ctx)?;
-                let var_typ = list_typ.element_typ()?;
+                // the variable and the predicate are indexed even if the list type cannot be inferred
+                let list_typ = list.index(ctx).unwrap_or(Type::Unknown);
+                let var_typ = list_typ.element_typ().unwrap_or(Type::Unknown);
 
                 let (var_name, var_define_loc) = match var.inner_values().next()?.simple_value() {
                     Some(ast::SimpleValue::Identifier(identifier)) => {
@@ -197,9 +198,10 @@ impl Indexable for ast::BangOperator {
                 let var = values.get(3)?;
                 let expr = values.get(4)?;
 
-                let init_typ = init.index(ctx)?;
-                let list_typ = list.index(ctx)?;
-                let list_elm_typ = list_typ.element_typ()?;
+                // the variables and the expression are indexed even if a type cannot be inferred
+                let init_typ = init.index(ctx).unwrap_or(Type::Unknown);
+                let list_typ = list.index(ctx).unwrap_or(Type::Unknown);
+                let list_elm_typ = list_typ.element_typ().unwrap_or(Type::Unknown);
 
                 let (acc_name, acc_define_loc) = match acc.inner_values().next()?.simple_value() {
                     Some(ast::SimpleValue::Identifier(identifier)) => {
@@ -238,8 +240,9 @@ impl Indexable for ast::BangOperator {
                 let sequence = values.get(1)?;
                 let expr = values.get(2)?;
 
-                let sequence_typ = sequence.index(ctx)?;
-                let var_typ = sequence_typ.element_typ()?;
+                // the variable and the expression are indexed even if the sequence type cannot be inferred
+                let sequence_typ = sequence.index(ctx).unwrap_or(Type::Unknown);
+                let var_typ = sequence_typ.element_typ().unwrap_or(Type::Unknown);
 
                 let (var_name, var_define_loc) = match var.inner_values().next()?.simple_value() {
                     Some(ast::SimpleValue::Identifier(identifier)) => {
